@@ -56,6 +56,24 @@ type BulkPut struct {
 	Key  string `json:"key"`
 	Fill byte   `json:"fill"`
 	N    int    `json:"n"`
+	// Rand: incompressible content (a fixed xorshift stream seeded by Fill and N) - the snapshot writer rotates its pieces by their
+	// COMPRESSED size, constant-filled values would never make it rotate
+	Rand bool `json:"rand,omitempty"`
+}
+
+func (b BulkPut) value() []byte {
+	if !b.Rand {
+		return bytes.Repeat([]byte{b.Fill}, b.N)
+	}
+	out := make([]byte, b.N)
+	x := uint64(b.Fill)*2654435761 + uint64(b.N) + 88172645463325252
+	for i := 0; i+8 <= len(out); i += 8 {
+		x ^= x << 13
+		x ^= x >> 7
+		x ^= x << 17
+		out[i], out[i+1], out[i+2], out[i+3], out[i+4], out[i+5], out[i+6], out[i+7] = byte(x), byte(x>>8), byte(x>>16), byte(x>>24), byte(x>>32), byte(x>>40), byte(x>>48), byte(x>>56)
+	}
+	return out
 }
 
 // genBig: a saver table of 18-40 MiB (the sstable-stream format ships 16 MiB pieces, the checkpoint format several files), always with
@@ -74,7 +92,7 @@ func genBig(t *rapid.T) Case {
 	for i := 0; total < want; i++ {
 		n := rapid.SampledFrom([]int{512 * 1024, 1024 * 1024, 2 * 1024 * 1024}).Draw(t, "bulksize")
 		total += n
-		c.SaverBulk = append(c.SaverBulk, BulkPut{Key: fmt.Sprintf("bulk%03d", i), Fill: byte('a' + i%26), N: n})
+		c.SaverBulk = append(c.SaverBulk, BulkPut{Key: fmt.Sprintf("bulk%03d", i), Fill: byte('a' + i%26), N: n, Rand: rapid.IntRange(0, 4).Draw(t, "incompressible") > 0})
 	}
 	// between prepare and save: touch the first, a middle and the last bulk key, add keys before / after them, with leader indices
 	li := uint64(5000)
@@ -259,7 +277,7 @@ func run(c Case, o *vt.Obs) *vt.Failure {
 		var bulk [][][]byte
 		for i, b := range c.SaverBulk {
 			li := uint64(100 + i)
-			x, _ := (&regattapb.Command{Table: []byte("t"), Type: regattapb.Command_PUT, LeaderIndex: &li, Kv: &regattapb.KeyValue{Key: []byte(b.Key), Value: bytes.Repeat([]byte{b.Fill}, b.N)}}).MarshalVT()
+			x, _ := (&regattapb.Command{Table: []byte("t"), Type: regattapb.Command_PUT, LeaderIndex: &li, Kv: &regattapb.KeyValue{Key: []byte(b.Key), Value: b.value()}}).MarshalVT()
 			if i%4 == 0 {
 				bulk = append(bulk, nil)
 			}
